@@ -29,7 +29,7 @@ NEUTRAL = ('TimeoutError', 'FailedFastError', 'NoMembersError', 'ClientError', '
 DECODE_ERRS = ('KeyError', 'error', 'TypeError', 'ValueError', 'AttributeError', 'UnicodeDecodeError',
                'UnicodeEncodeError', 'TProtocolException', 'IndexError', 'TTransportException',
                'OverflowError', 'AssertionError', 'NotImplementedError')
-WELL_FORMED = ('ok', 'empty', 'declared', 'appexc', 'nack', 'rerror', 'rerr', 'bad_rerr')
+WELL_FORMED = ('ok', 'empty', 'missing', 'declared', 'appexc', 'nack', 'rerror', 'rerr', 'bad_rerr')
 
 
 class ScriptedServerSet(ServerSetProvider):
@@ -111,6 +111,11 @@ class StackWorld(object):
     if self.scn['iface'] == 'hello':
       from test.scales.thrift.gen_py.hello import Hello
       return Hello
+    if self.scn['iface'] == 'derived':
+      # an interface that extends SimService: inherited methods' args/result
+      # classes live in the base module
+      from peers.simsvc import DerivedService
+      return DerivedService
     from peers.simsvc import SimService
     return SimService
 
@@ -461,8 +466,11 @@ class StackWorld(object):
       except AttributeError:
         nodes, idle = [], [None]
       if nodes and not idle:
+        # "down" as the resurrector itself knows it (it has dropped its sink); in
+        # the instant in which a pool closes itself the resurrector may not
+        # have been told yet and still forwards requests to it
         all_down = all(n.channel in self.resurrectors and n.channel.state == ChannelState.Closed
-                       for n in nodes)
+                       and n.channel.next_sink is None for n in nodes)
     if op.get('via') == 'proxy' and self.closed_at is None:
       fn = getattr(self.client, m + '_async')
       c = self.tracker.issue(None, cid, m, args, timeout=None, spec=op, fn=lambda: fn(*args))
@@ -635,7 +643,7 @@ class StackWorld(object):
         continue
       if K is None and r.server.muted:
         K = 'muted'
-      want = {'ok': 'value', 'empty': 'value', 'declared': 'declared', 'appexc': 'appexc',
+      want = {'ok': 'value', 'empty': 'value', 'missing': 'appexc', 'declared': 'declared', 'appexc': 'appexc',
               'nack': 'servererror', 'rerror': 'servererror', 'rerr': 'servererror',
               'bad_rerr': 'servererror'}.get(K)
       if K == 'declared' and c.method not in ('risky', 'guard'):
